@@ -240,6 +240,15 @@ def build_harness(force: bool = False) -> Path:
     return exe
 
 
+def exc_family(ex: BaseException) -> str:
+    """name of the first built-in class in the exception's MRO: signatures stay the same when a maintainer refines a
+    refusal into a subclass (class EncodingError(ValueError)) -- the family, not the exact class, identifies a finding"""
+    for c in type(ex).__mro__:
+        if c.__module__ == 'builtins':
+            return c.__name__
+    return type(ex).__name__
+
+
 def hx(b: bytes) -> str:
     return b.hex() if b else '-'
 
